@@ -92,7 +92,7 @@ def derive_closure(chk, facts, cfg):
         chk.ob('%s:derive:%s[%s]' % (PID, p, cfg), 'derive-closure', '%s (reachable from a public state type) has both derived serde impls' % p,
                good, detail, '%s:%s' % (a['span'][0], a['span'][1]), sample={'type': p, 'config': cfg, 'serialize': len(s), 'deserialize': len(d)})
         # field attributes that drop / default data: read from the source span of the ADT
-        attrs = serde_field_attrs(a)
+        attrs = serde_field_attrs(a, getattr(facts, "repo", None))
         chk.ob('%s:attrs:%s[%s]' % (PID, p, cfg), 'derive-closure', '%s has no serde attribute that skips, defaults or redirects a field' % p,
                not attrs, 'attributes found: %s' % attrs if attrs else '', '%s:%s' % (a['span'][0], a['span'][1]))
     chk.floor('serialisable-types[%s]' % cfg, len(seen), 9)
@@ -112,10 +112,10 @@ def local_adts_in(ty):
     return out
 
 
-def serde_field_attrs(adt):
+def serde_field_attrs(adt, repo=None):
     """#[serde(...)] attributes inside the item's source span (attributes are not types:
     they are read from the item text the compiler parsed, span from the fact file)."""
-    path = os.path.join(os.environ.get('VERIF_REPO_DIR', core.REPO), adt['span'][0])
+    path = os.path.join(repo or core.REPO, adt['span'][0])
     try:
         lines = open(path).read().split('\n')
     except OSError:
